@@ -70,8 +70,11 @@ func (api *HTTP) handlePostMessage(w http.ResponseWriter, r *http.Request, sessi
 
 	// IRC messages are separated by the newline character, so ensure the
 	// message does not contain any newlines.
+	// An IRC message is a single line: cut at the first line terminator (or
+	// NUL, which must not occur in IRC messages), otherwise the remainder
+	// would be relayed to other clients as (part of) another line.
 	data := req.Data
-	if idx := strings.IndexByte(data, '\n'); idx > -1 {
+	if idx := strings.IndexAny(data, "\r\n\x00"); idx > -1 {
 		data = data[:idx]
 	}
 	msg := &robust.Message{
